@@ -40,6 +40,7 @@ RULE = ("metamorphic: a grammar program (C01's space, all operation groups) is "
         "non-trivial = the assignment puts ImplStored or ImplSubstitution on "
         ">= 1 inner (non-output) operation node; distinct by (program, "
         "assignment)")
+RULE += '  Round-4 additions: 0-d real placeholders may get ForceValueArgTag (passed by value); 78 enumerated programs in which ONE buffer is wrapped by two DataWrapper nodes of which one or both carry user/axis/PrefixNamed/ImplStored tags.'
 ASSUMPTIONS = [
     "loopy's C target + gcc stand in for the OpenCL target",
     "on this image every reduction is stored regardless of tags "
